@@ -99,3 +99,32 @@ Definition run_prefix (k : nat) (steps : list step) (s : cstate) : cstate := run
 (* the trace the fault hook records: (kind, label) per point *)
 Definition kind_code (k : step) : N :=
   match k with KMk _ => 0 | KTmpC _ => 1 | KTmpW _ => 2 | KRen _ _ => 3 | KBackup _ => 4 | KRemove _ => 5 end.
+
+(* ---------- rollback (apply.rs::rollback, state-tree branch) ---------- *)
+(* restores of the chosen snapshot's managed files, then of the manifests it wrote, then the
+   deletes of what the head records beyond it, then the rollback record *)
+Definition restore_steps (l : list (str * path * N)) : list step :=
+  flat_map (fun e => write_atomic_steps (LDir (parent (snd (fst e)))) (LT (snd (fst e))) (FBytes (snd e))) l.
+
+Definition manifest_restore_steps (l : list achange) : list step :=
+  flat_map (fun c => if is_manifest_path (a_path c) && is_cu (a_op c)
+                     then match a_after c with
+                          | Some o => write_atomic_steps (LDir (parent (a_path c))) (LT (a_path c)) o
+                          | None => []
+                          end
+                     else []) l.
+
+Fixpoint delete_steps (f : fs) (cur tgt : list (str * path * N)) : list step :=
+  match cur with
+  | [] => []
+  | e :: r =>
+    if mem_tpc (fst (fst e), snd (fst e)) tgt then delete_steps f r tgt
+    else if exists_at f (snd (fst e)) then KRemove (snd (fst e)) :: delete_steps (upd f (snd (fst e)) None) r tgt
+    else delete_steps f r tgt
+  end.
+
+Definition steps_of_rollback (f : fs) (tgt cur : snapshot) : list step :=
+  restore_steps (sn_managed tgt)
+  ++ manifest_restore_steps (sn_changes tgt)
+  ++ delete_steps (restore_manifests (restore_managed f (sn_managed tgt)) (sn_changes tgt)) (sn_managed cur) (sn_managed tgt)
+  ++ [KMk LSnapDir] ++ write_atomic_steps LSnapDir LRecord record_content.
